@@ -20,11 +20,11 @@ RULE = ("Hypothesis draws a dimension (2/3), a value shape (scalar, vector, matr
         "enumeration). constructexpansion is compared with the direct power series sum_b pre_n C_b (v_b.u)^n. All index tables "
         "(pow2ind/ind2pow, powlrange, Ylm/FC indices, directmult, powercoeff, powexp, Ylmpow/FCpow against scipy sph_harm_y / e^{il theta}, "
         "powYlm/powFC against quadrature overlaps and as inverse, Lproj idempotent/orthogonal/complete/pure-l/degree-bounded) are "
-        "checked exhaustively for Lmax=4. Non-trivial: >=2 input terms with different (n,l), non-scalar shape and at least one "
+        "checked exhaustively for Lmax=4; the entries produced by separate() are also checked to hold a single l (quadrature against true harmonics, as its docstring promises). Non-trivial: >=2 input terms with different (n,l), non-scalar shape and at least one "
         "binary or structural operation; distinct by the whole case.")
 ASSUMPTIONS = ["the storage order of the monomials (by total degree, then exponent of x, then y) is taken from the class documentation as part of the input format",
                "the radial factor of order n is |u|^n (the only choice for which products of expansions are products of values); per-order comparison is equivalent to comparison for all |u|",
-               "tolerance 1e-10 * max(1, sum of coefficient magnitudes) per order: coefficients are multiples of 1/8 (or exactly 0), far above the 1e-10 threshold below which reduce/separate discard blocks",
+               "tolerance 1e-10 * max(1, B_n) per order and 1e-10 * max(1, sum_n |u|^n B_n) for the value, B_n = sum of the coefficient magnitudes of order n propagated through the operations (direction independent, because projected representations cancel between monomials); coefficients are multiples of 1/8 (or exactly 0), far above the 1e-10 threshold below which reduce/separate discard blocks",
                "the origin is used as an evaluation point only when the function is continuous there (no negative orders, isotropic order-0 terms)",
                "all coefficient arrays of one case share one dtype (complex as produced by constructexpansion/zeros, or real)"]
 SHARDS = {"quick": 4, "thorough": 16}
@@ -302,7 +302,6 @@ def check_algebra(case):
     for k, op in enumerate(case["ops"]):
         name = op["op"]
         what = "step %d (%s)" % (k + 1, name)
-        keep = None  # (object, reference, label) that must be left unchanged by the operation
         if "B" in op:
             bshape = tuple(op["B"]["shape"])
             bc = op["B"].get("cplx")
@@ -335,7 +334,11 @@ def check_algebra(case):
             structural += 1
             cmplx_state = cmplx_state_after
         elif name == "addarr":
-            M = ts.array(op["M"], shape, cplx)
+            mc = cplx
+            if EXCLUDE_REAL_COMPLEX_MIX and cmplx_state != cplx:
+                mc = cmplx_state
+                _EXCLUDED["real_complex_mix"] += 1
+            M = ts.array(op["M"], shape, mc)
             sgn = -1 if op["sub"] else 1
             const = Ref(dim, pts, shape)
             for i in range(len(pts)):
@@ -790,9 +793,9 @@ def run(ctx):
     tabs = table_cases()
     ok = ctx.cases([c for i, c in enumerate(tabs) if ctx.mine(i)], check, label="index tables")
     ctx.note("index_tables", {"Lmax": LMAX, "tables_per_dimension": len(TABLES3), "enumeration_complete": bool(ok)})
-    ctx.given(construct_cases(), check, quick=800, thorough=10000, salt=1, label="constructexpansion")
-    ctx.given(algebra_cases(3), check, quick=2400, thorough=30000, salt=2, label="algebra 3D")
-    ctx.given(algebra_cases(2), check, quick=2400, thorough=30000, salt=3, label="algebra 2D")
+    ctx.given(construct_cases(), check, quick=800, thorough=15000, salt=1, label="constructexpansion")
+    ctx.given(algebra_cases(3), check, quick=2400, thorough=50000, salt=2, label="algebra 3D")
+    ctx.given(algebra_cases(2), check, quick=2400, thorough=50000, salt=3, label="algebra 2D")
     if _EXCLUDED["real_complex_mix"]:
         ctx.exclude("real_complex_mix", _EXCLUDED["real_complex_mix"])
 
